@@ -340,6 +340,11 @@ func (d *tDecoder) decodeType(t *tType, b []byte, p unsafe.Pointer, maxdepth int
 				}
 			}
 			tmp = vp
+			if vt.T == tSTRUCT && !vt.IsPointer {
+				// the tmp var is reused for every entry (and every call):
+				// fields missing in this entry must not keep the previous entry's values
+				v.SetZero()
+			}
 			if vt.IsPointer { // tmp = &sliceV[j]
 				if j != 0 { // next
 					sliceV = unsafe.Add(sliceV, vt.V.Size)
